@@ -123,6 +123,7 @@ class Runner:
         self.envf = os.path.join(self.h.dir, "in.env")
         self.flag = os.path.join(self.h.dir, "crashflag")
         self.ossified = None
+        self.extra = b""              # QUEUE_EXTRA of the build under test (extra.h)
 
     def execute(self, uid, crash=None, fault=None, hold_trigger=False, alarm=None):
         h = self.h
@@ -207,6 +208,10 @@ def judge(r, sc, msg, env, uid, uidclass, rc, pid, t0, t1, events, mode, expect_
         return "more than one pid/ leftover: %r" % pids, False, {}
     reached = any(e["call"] == "link" and len(e["a"]) > 2 and e["a"][1].startswith("mess/") and e["a"][2] == "0" for e in events)
     code_env, canon = model_env(env)
+    if canon is not None and r.extra:
+        # FAQ 8.2 build: QUEUE_EXTRA is written between the sender record and the recipient records
+        z = canon.index(b"\0") + 1
+        canon = canon[:z] + r.extra + canon[z:]
     crashed = mode[0] == "crash" and rc == -9
     # clause 5: alarm before first file creation, below OSSIFIED
     al = [i for i, e in enumerate(events) if e["call"] == "alarm"]
@@ -452,6 +457,7 @@ def worker(job):
     stats = vlib.Stats()
     r = Runner(tree, wid)
     r.ossified = parse_ossified(tree)
+    r.extra = getattr(tree, "queue_extra", b"")
     for sc in binputs:
         v = run_input(r, sc, stats, full=True)
         if v:
@@ -484,15 +490,43 @@ def run(ctx):
     per = ctx.n(500, 1200)
     jobs = [(tree, i, vlib.subseed(ctx.seed, "c01", i), per, ctx.tier, b[i::nw]) for i in range(nw)]
     ctx.stats.merge(vlib.run_workers(worker, jobs))
+    if not ctx.stats.violations:
+        # the documented "copy of all mail" build (FAQ 8.2: QUEUE_EXTRA "Tlog\0", QUEUE_EXTRALEN 5 in extra.h): the boundary inputs once more,
+        # completely swept, against a second build of the working tree with that extra.h - the extra record sits between sender and recipients
+        t2 = extra_tree()
+        if t2 is not None:
+            b2 = [sc for sc in boundary_inputs() if sc["mut"]["kind"] == "none"][::3]
+            st2 = vlib.run_workers(worker, [(t2, "x%d" % i, 1, 0, ctx.tier, b2[i::nw]) for i in range(nw) if b2[i::nw]])
+            st2.classes = {"faq82_build:" + k: v for k, v in st2.classes.items()}
+            st2.violations = [("FAQ 8.2 build (QUEUE_EXTRA \"Tlog\\0\"): " + m, dict(sc, queue_extra="Tlog") if isinstance(sc, dict) else sc) for m, sc in st2.violations]
+            ctx.stats.merge(st2)
+            ctx.notes["faq82_build_inputs"] = len(b2)
     ctx.notes["ossified_constant"] = parse_ossified(tree)
+
+
+def extra_tree():
+    """second build of the working tree with the extra.h of FAQ 8.2, or None if extra.h no longer has the shipped form"""
+    t2 = vlib.Tree(tag="-extra")
+    xp = t2.path("extra.h")
+    x = open(xp).read()
+    x2 = re.sub(r'#define QUEUE_EXTRA ""', '#define QUEUE_EXTRA "Tlog\\0"', re.sub(r"#define QUEUE_EXTRALEN 0", "#define QUEUE_EXTRALEN 5", x))
+    if x2 == x or "Tlog" not in x2:
+        return None
+    open(xp, "w").write(x2)
+    t2.make("qmail-queue")
+    t2.queue_extra = b"Tlog\0"
+    return t2
 
 
 def replay(ctx, path):
     sandbox.ensure_shim()
-    tree = vlib.Tree().make("qmail-queue")
     sc = json.load(open(path))
     sc = sc.get("scenario", sc)
+    tree = extra_tree() if sc.get("queue_extra") else vlib.Tree().make("qmail-queue")
+    if tree is None:
+        raise vlib.HarnessError("extra.h cannot be switched to the FAQ 8.2 form")
     r = Runner(tree, "replay")
+    r.extra = getattr(tree, "queue_extra", b"")
     r.ossified = parse_ossified(tree)
     v = run_input(r, sc, ctx.stats, full=True)
     return [v] if v else []
